@@ -230,6 +230,7 @@ fn cfg(tier: Tier) -> ProgCfg {
             damage_bucket: 3,
             foreign: 1,
             two_writers: 2,
+            switch_cache: 0,
         },
         wmix: WriteMix { bad_decls: true, meta: true, by_hash: true, rich_matching: false, interfere: false },
         sizes: SizeMix::Normal,
